@@ -25,7 +25,7 @@ func init() { props["C16"] = c16 }
 func c16(c *Ctx) {
 	nCalls := c.N(700, 6000)
 	nHist := c.N(150, 1500)
-	c.Rule = fmt.Sprintf("%d distinct calls (query x schema x current step, valid and garbage), each run first in a fresh process; %d histories of 20..60 calls drawn from them (with repeats and cache-defeating re-spellings) in long-lived processes; equality of error, HasErrors, messages, return type, offered fields and the id-stripped marshalled tree with the fresh result; re-marshalling of earlier results after the history. evaluations = CueValidate calls; non-trivial = the call reaches validation (query parses and schema compiles); distinct by (query, schema, step).", nCalls, nHist)
+	c.Rule = fmt.Sprintf("%d distinct calls (query x schema x current step; queries: fixed probes, schema-aware grammar with declared / undeclared chains, known and unknown function names, filters after paths and after calls, groups; random DSL queries; random bytes), each run first in a fresh process; %d histories of 20..60 calls drawn from them (with repeats and cache-defeating re-spellings) in long-lived processes; equality of error, HasErrors, messages, return type, offered fields and the id-stripped marshalled tree with the fresh result; re-marshalling of earlier results after the history. evaluations = CueValidate calls; non-trivial = the call reaches validation (query parses and schema compiles); distinct by (query, schema, step).", nCalls, nHist)
 	r := c.Rng
 	g := &qgen{c: c}
 	schemas := []string{
@@ -38,16 +38,75 @@ func c16(c *Ctx) {
 		"",
 	}
 	vq := []string{"$.s1.result", "$.s2.result.First().k", "$.input.name.Equal($.s1.result)", "$.s3.result.a.Add(1)", "$.s3.result.b-c", "$.input.list[@.x.Equal(\"a\")].Count()", "{OR,$.input.n.Greater(1),$.s1.result.Contains(\"x\")}",
-		"$.a.b", "$.a.c.Sum()", "$.a._h", "$.a.zz.yy", "$.a.data.foo", "$.nosuch", "$.s1.result.Nope()", "$.s1.result.Left(1,2,3)", "$.input.n.Contains(\"a\")", "$._a+b", "$.s2.result.name", "@.s1", "$"}
+		"$.a.b", "$.a.c.Sum()", "$.a._h", "$.a.zz.yy", "$.a.data.foo", "$.nosuch", "$.s1.result.Nope()", "$.s1.result.Left(1,2,3)", "$.input.n.Contains(\"a\")", "$._a+b", "$.s2.result.name", "@.s1", "$",
+		"$.s2.result.Pick(1)[@.k.Equal(1)]", "$.s1.result.Frobnicate()", "{OR,$.input.name.Nope(),$.s1.result.Equal(\"x\")}", "$.s2.result.First()[@.k.Equal(1)]"}
 	curs := []string{"", "s1", "s2", "s3", "input", "nosuch", "_a+b", "a"}
+	// schema-aware queries: declared and undeclared chains, known and unknown function names (right and
+	// wrong arity), filters after paths and after calls, groups and nested arguments
+	chains := []string{"$.s1.result", "$.s2.result", "$.s2.result.k", "$.s2.result.name", "$.s3.result", "$.s3.result.a", "$.input.name", "$.input.n", "$.input.list", "$.input.list.x", "$.variables.x",
+		"$.a.b", "$.a.c", "$.a.data.foo", "$.nosuch", "$.s1.nosuch", "$.input.list.zz", "@.s1.result", "$"}
+	lits := []string{"1", "\"x\"", "true", "2.5", "-1"}
+	known := funcNames()
+	unknown := []string{"Pick", "Frobnicate", "equal", "Nope", "sum"}
+	fname := func() string {
+		if r.Intn(4) == 0 {
+			return unknown[r.Intn(len(unknown))]
+		}
+		return known[r.Intn(len(known))]
+	}
+	filter := func() string {
+		sub := []string{"k", "x", "name", "zz", "id"}[r.Intn(5)]
+		return "[@." + sub + "." + fname() + "(" + lits[r.Intn(len(lits))] + ")]"
+	}
+	var sq func(depth int) string
+	sargs := func(depth int) string {
+		var as []string
+		for i, n := 0, r.Intn(3); i < n; i++ {
+			switch {
+			case depth > 0 && r.Intn(4) == 0:
+				as = append(as, sq(depth-1))
+			case depth > 0 && r.Intn(6) == 0:
+				as = append(as, "{"+sq(depth-1)+"}")
+			default:
+				as = append(as, lits[r.Intn(len(lits))])
+			}
+		}
+		return strings.Join(as, ",")
+	}
+	sq = func(depth int) string {
+		q := chains[r.Intn(len(chains))]
+		for i, n := 0, r.Intn(4); i < n; i++ {
+			switch r.Intn(5) {
+			case 0, 1:
+				q += "." + fname() + "(" + sargs(depth) + ")"
+				if r.Intn(3) == 0 {
+					q += filter() // a filter straight after a call
+				}
+			case 2:
+				q += filter()
+			case 3:
+				q += "." + []string{"k", "x", "a", "result", "zz"}[r.Intn(5)]
+			default:
+				if depth > 0 {
+					q += ".Equal(" + sq(depth-1) + ")"
+				}
+			}
+		}
+		return q
+	}
 	type call struct{ q, s, cur string }
 	var calls []call
 	seen := map[string]bool{}
 	for len(calls) < nCalls {
 		var q string
-		switch r.Intn(6) {
+		switch r.Intn(8) {
 		case 0:
 			q = g.randQuery(2)
+		case 2, 3, 4:
+			q = sq(2)
+			if r.Intn(5) == 0 {
+				q = "{" + []string{"", "OR,", "AND,"}[r.Intn(3)] + q + "," + sq(1) + "}"
+			}
 		case 1:
 			b := make([]byte, r.Intn(12))
 			for i := range b {
